@@ -4227,6 +4227,18 @@ class TensorDictBase(MutableMapping):
     def _erase_cache(self):
         self._cache = None
 
+    def _erase_cache_upwards(self):
+        """Erases the cache of this tensordict and of the tensordicts it is locked under.
+
+        Must be called wherever an entry or a metadata is (re)bound while locked: the memoised
+        results of this node and of every node above it may hold the previous binding.
+        """
+        self._erase_cache()
+        for ref in self._lock_parents_weakrefs:
+            parent = ref()
+            if parent is not None:
+                parent._erase_cache()
+
     # Dim names functionality
     @property
     @abc.abstractmethod
